@@ -27,6 +27,27 @@ from .c02 import numbering, header_derivation
 from .c14 import expected_distances
 
 
+def window_arguments(ck, rule):
+    """getSequence vectorises exactly the window it was asked for: start / end reach the generator unchanged (the caller
+    converts bin indices back with the *requested* start)"""
+    p = ck.ctx.p
+    gs = p.find_method("OpticalMap", "getSequence")
+    names = [pp.name for pp in gs.call_params()]
+    for pa in explore(ck, gs):
+        if pa.outcome != "return":
+            continue
+        apps = [x for x in T.subterms(pa.value) if x[0] == "app" and x[1].endswith("positionsToSequence")]
+        if not apps:
+            raise AnalysisError(f"{where(gs, pa.node)}: vectorisation call not found in getSequence")
+        a = dict(apps[0][3])
+        for prm in ("start", "end"):
+            if prm in names:
+                ck.judge(a.get(prm) == V(prm), rule, f"{short(gs)}:{prm}", where(gs, pa.node),
+                         f"the requested window {prm} is passed to the vectorisation unchanged (bin 0 is the bin that starts at the "
+                         f"requested start)", found=T.show(a.get(prm, C(None)))[:120], required=prm)
+        break
+
+
 def position_order(ck, rule):
     """PositionWithSiteId is ordered by coordinate only"""
     p = ck.ctx.p
@@ -160,6 +181,11 @@ def run(ck):
         raise AnalysisError(f"{fn.where}: the query distance between the two segments was not found in getScore")
     header_derivation(ck, "C11.3")
     position_order(ck, "C11.6")
+    ck.clause("C11.8", "a molecule and its mirror image are read with the same labels: label rows are selected by channel, not by "
+                       "coordinate (as C17.2)")
+    from ..report import RuleView
+    from . import c17
+    c17.run(RuleView(ck, {"C17.2": "C11.8"}))
     # ---- C11.4
     gs = p.find_method("OpticalMap", "getSequence")
     rs = V("reverseStrand")
@@ -182,6 +208,7 @@ def run(ck):
     ck.judge(fwd_t[0] == "app" and fwd_t[1].endswith("positionsToSequence") and dict(fwd_t[3]).get("positions") == self_attr("positions"),
              "C11.4", short(gs) + ":forward", where(gs, fpa.node), "forward vector is the vectorisation of the map's own positions",
              found=T.show(fwd_t)[:160])
+    window_arguments(ck, "C11.4")
     gi = p.find_method("OpticalMap", "getInitialAlignment")
     seen_q = seen_r = False
     for pa in explore(ck, gi, unroll=(0, 1)):
